@@ -579,6 +579,13 @@ def run_c14(case):
                         if la2 != la:
                             out.append(viol("C14", "repeatable", "static-condition-loss-changes-without-optimisation", specs[i]["kind"],
                                             first=la, second=la2))
+                # (b'') the models are user objects too: an evaluation must leave their training mode as it found it
+                for j_, bj in builds.items():
+                    m_ = bj.get("model")
+                    if m_ is not None and hasattr(m_, "training") and not m_.training and not bj.get("_mode_reported"):
+                        out.append(viol("C14", "containers", "model-left-in-eval-mode", specs[j_]["kind"], after=op["op"],
+                                        op_condition=specs[i]["kind"]))
+                        bj["_mode_reported"] = True
                 # (b') the user's domain objects still declare the same needs
                 for n_, d_ in (shared.get("domains") or {}).items():
                     if sorted(d_.necessary_variables) != dom_state[n_]:
